@@ -85,9 +85,11 @@ def fk(
                 dx=dx,
                 vbounds=vbounds,
                 ntr_pad=ntr_pad,
+                btype=btype,
                 ntr_tap=ntr_tap,
                 lagc=lagc,
                 collection=None,
+                kfilt=kfilt,
             )
         return xout
 
@@ -156,7 +158,7 @@ def car(x, collection=None, operator='median', **kwargs):
         xout = np.zeros_like(x)
         for c in np.unique(collection):
             sel = collection == c
-            xout[sel, :] = car(x=x[sel, :], collection=None, **kwargs)
+            xout[sel, :] = car(x=x[sel, :], collection=None, operator=operator, **kwargs)
         return xout
 
     if operator == 'median':
@@ -196,8 +198,10 @@ def kfilt(
                 x=x[sel, :],
                 ntr_pad=0,
                 ntr_tap=None,
+                lagc=lagc,
                 collection=None,
                 butter_kwargs=butter_kwargs,
+                gpu=gpu,
             )
         return xout
     nx, nt = x.shape
